@@ -6,6 +6,7 @@ package main
 import (
 	"fmt"
 	"math/big"
+	"regexp"
 	"sort"
 	"strings"
 )
@@ -94,11 +95,13 @@ type TermBank struct {
 	// side facts about symbols (type ranges); used by bounds()
 	symLo, symHi map[*Term]*big.Int
 	bcache       map[*Term][2]*big.Int
+	// terms known to equal a literal on every path where they exist (from requires / callee results)
+	known map[*Term]*Term
 }
 
 func NewBank() *TermBank {
 	return &TermBank{tab: map[string]*Term{}, funcs: map[string]*funcDecl{},
-		symLo: map[*Term]*big.Int{}, symHi: map[*Term]*big.Int{}, bcache: map[*Term][2]*big.Int{}}
+		symLo: map[*Term]*big.Int{}, symHi: map[*Term]*big.Int{}, bcache: map[*Term][2]*big.Int{}, known: map[*Term]*Term{}}
 }
 
 func (b *TermBank) mk(op, sort, name string, val *big.Int, args ...*Term) *Term {
@@ -121,6 +124,9 @@ func (b *TermBank) mk(op, sort, name string, val *big.Int, args ...*Term) *Term 
 	}
 	k := sb.String()
 	if t, ok := b.tab[k]; ok {
+		if r, ok := b.known[t]; ok {
+			return r
+		}
 		return t
 	}
 	b.nextID++
@@ -1258,7 +1264,14 @@ func (b *TermBank) sexpr(t *Term, names map[*Term]string) string {
 func (b *TermBank) Script(assumptions []*Term, goal *Term, pre *preludeInfo, extra string, extraAxioms func(seen map[*Term]bool) []*Term) string {
 	preDefined := map[string]bool{}
 	if pre != nil {
-		preDefined = pre.defined
+		for k := range pre.defined {
+			preDefined[k] = true
+		}
+	}
+	for _, sx := range splitSexprs(extra) {
+		if m := reDefHead.FindStringSubmatch(sx); m != nil {
+			preDefined[m[2]] = true
+		}
 	}
 	var roots []*Term
 	roots = append(roots, assumptions...)
@@ -1332,7 +1345,13 @@ func (b *TermBank) Script(assumptions []*Term, goal *Term, pre *preludeInfo, ext
 		for _, sym := range reSym.FindAllString(extra, -1) {
 			used[sym] = true
 		}
-		sb.WriteString(pre.selectFor(used))
+		ptxt := pre.selectFor(used)
+		if goal == nil {
+			// satisfiability (cover) query: recursive definitions become uninterpreted and
+			// quantified axioms are dropped -- an over-approximation that keeps the query decidable
+			ptxt = relaxPrelude(ptxt)
+		}
+		sb.WriteString(ptxt)
 	}
 	sb.WriteString(extra)
 	// shared closed subterms become define-funs
@@ -1374,4 +1393,52 @@ func (b *TermBank) sexpr1(t *Term, names map[*Term]string) string {
 		names[t] = saved
 	}
 	return s
+}
+
+var reRecHead = regexp.MustCompile(`^\(\s*define-fun-rec\s+([^\s()]+)\s*\(`)
+
+func relaxPrelude(txt string) string {
+	var sb strings.Builder
+	for _, sx := range splitSexprs(txt) {
+		if strings.HasPrefix(sx, "(assert") && strings.Contains(sx, "forall") {
+			continue
+		}
+		if m := reRecHead.FindStringSubmatchIndex(sx); m != nil {
+			name := sx[m[2]:m[3]]
+			// parameter list starts at the paren matched last by the regexp
+			i := m[1] - 1
+			d := 0
+			j := i
+			for ; j < len(sx); j++ {
+				if sx[j] == '(' {
+					d++
+				} else if sx[j] == ')' {
+					d--
+					if d == 0 {
+						break
+					}
+				}
+			}
+			params := sx[i+1 : j]
+			var sorts []string
+			for _, p := range splitSexprs(params) {
+				inner := strings.TrimSpace(p[1 : len(p)-1])
+				k := strings.IndexAny(inner, " \t\n")
+				sorts = append(sorts, strings.TrimSpace(inner[k+1:]))
+			}
+			// return sort: next s-expression or atom after the parameter list
+			rest := strings.TrimSpace(sx[j+1:])
+			ret := ""
+			if strings.HasPrefix(rest, "(") {
+				ret = splitSexprs(rest)[0]
+			} else {
+				ret = strings.Fields(rest)[0]
+			}
+			fmt.Fprintf(&sb, "(declare-fun %s (%s) %s)\n", name, strings.Join(sorts, " "), ret)
+			continue
+		}
+		sb.WriteString(sx)
+		sb.WriteByte('\n')
+	}
+	return sb.String()
 }
